@@ -355,9 +355,10 @@ def differsFrom (r : BTP) : Option BTP → Bool
   | none => true
   | some p => policiesDiffer p r
 
-/-- REPAIRED comparison (candidate fix, notes/C16.md): additionally tell apart ConfigMaps of the same name in
-different namespaces (compare the resolved `CaCertRef`, which is namespaced) -/
-def policiesDifferR (p1 p2 : BTP) : Bool := policiesDiffer p1 p2 || (!p1.refs.isEmpty && p1.ns ≠ p2.ns)
+/-- REPAIRED comparison (candidate fix, notes/C16.md): CA references are local to the policy namespace (the same
+ConfigMap name in another namespace is another ConfigMap), and `wellKnownCACertificates` is compared by VALUE -/
+def policiesDifferR (p1 p2 : BTP) : Bool :=
+  p1.refs ≠ p2.refs || (!p1.refs.isEmpty && p1.ns ≠ p2.ns) || p1.wk ≠ p2.wk || p1.hostname ≠ p2.hostname
 
 def differsFromR (r : BTP) : Option BTP → Bool
   | none => true
